@@ -6,7 +6,7 @@
    [ha_mux_creds l]  what a tcpmux listener demands    (user name non-empty, as Muxer.handle defines it)
    [ha_cfg_creds c]  what a web server / plugin demands (user or password non-empty)
    [ha_presented rq] the pair carried by Authorization (the zero strings when absent or malformed)              *)
-From FRP Require Import Model.HttpAuth Proofs.HttpAuthProofs gen.GenRoutes.
+From FRP Require Import Model.HttpAuth Model.HttpAuthGroup Proofs.HttpAuthProofs gen.GenRoutes.
 Open Scope Z_scope.
 
 (* ---- vhost HTTP reverse proxy: serveRouted ---------------------------------------------------------------- *)
@@ -84,6 +84,22 @@ Theorem C07_mux_handle_not_connect_closed : forall get canon passthrough rq,
   rq_form rq <> FConnect -> ha_mux_handle get canon passthrough rq = MClose.
 Proof. exact ha_mux_not_connect. Qed.
 Print Assumptions C07_mux_handle_not_connect_closed.
+
+(* ---- tcpmux load-balancing groups (server/group/tcpmux.go) --------------------------------------------------- *)
+(* for every history of joins and leaves, in every order, whichever member the scheduler lets accept: a member that
+   receives a connection was configured without a user name, or the CONNECT presented exactly its user and password *)
+Theorem C07_tcpmux_group_member_receives_only_with_credentials : forall canon ops passthrough rq chosen m,
+  ha_grp_deliver canon (fst (ha_grp_run [] ops)) passthrough rq chosen = Some m ->
+  ha_member_creds m = None \/ ha_member_creds m = Some (ha_mux_presented rq).
+Proof. exact ha_grp_member_receives_only_with_credentials. Qed.
+Print Assumptions C07_tcpmux_group_member_receives_only_with_credentials.
+
+(* the mechanism behind it: a joiner whose credentials differ from the group's (those of its first member) is refused *)
+Theorem C07_tcpmux_group_join_other_credentials_refused : forall g m,
+  (gm_user m, gm_pass m) <> (rt_user (g_route g), rt_pass (g_route g)) ->
+  ha_grp_join_existing g m = (g, 1).
+Proof. exact ha_grp_join_other_credentials_refused. Qed.
+Print Assumptions C07_tcpmux_group_join_other_credentials_refused.
 
 (* ---- HTTPAuthMiddleware (dashboard, admin API, static_file) -------------------------------------------------- *)
 Theorem C07_constant_time_compare_is_equality : forall a b, ha_ct_eq a b = true <-> a = b.
